@@ -58,8 +58,12 @@ func (this *Dataset) VerifOwnerIndex(id uuid.UUID) int {
 func (this *Dataset) VerifLoadRaft(i int, nodeIds []uint64) error {
 	return this.partitions[i].loadRaft(nodeIds)
 }
-func (this *Dataset) VerifUnloadRaft(i int) error     { return this.partitions[i].unloadRaft() }
-func (this *Dataset) VerifRaft(i int) *raft.RaftGroup { return this.partitions[i].raft }
+func (this *Dataset) VerifUnloadRaft(i int) error { return this.partitions[i].unloadRaft() }
+
+// VerifAddNode applies the catalogue change "nodeId becomes a replica of partition i" to this node's copy of the
+// partition, as DatasetManager.processPartitionNodesChange does.
+func (this *Dataset) VerifAddNode(i int, nodeId uint64) { this.partitions[i].addNode(nodeId) }
+func (this *Dataset) VerifRaft(i int) *raft.RaftGroup   { return this.partitions[i].raft }
 
 // VerifWrapWAL substitutes the partition's log store before raft is loaded (crash/fault injection).
 func (this *Dataset) VerifWrapWAL(i int, wrap func(wal.WAL) wal.WAL) {
